@@ -178,6 +178,12 @@ class UpdateChecker:
                 e = NO.R.LAST_EXC[0]
                 return ("C15/update-raised-%s" % type(e).__name__,
                         "%s: %s; frames injected before this call: %s" % (type(e).__name__, e, [p.hex() for p in self.pending]))
+            t = res[1]
+            good = {f[6] for f in self.pending if len(f) >= 8 and spec(f[2] | f[3] << 8) and spec(f[0] | f[1] << 8)}
+            if t not in good | {0, 131}:
+                return ("C15/update-reports-a-dropped-frame",
+                        "update() returned message type %d; no frame of that type with valid origin and destination was received "
+                        "(received: %s)" % (t, [p.hex() for p in self.pending]))
             self.last_update = (list(self.pending), len(obj.queue._queue))
             self.pending = []
         return None
